@@ -692,7 +692,11 @@ def _outer_functions(m):
     def rec(body, prefix, inside):
         for n in body:
             if isinstance(n, (ast.FunctionDef, ast.AsyncFunctionDef)):
-                yield f'{m.name}:{prefix}{n.name}', n
+                kind = ''
+                for d in n.decorator_list:     # a property's setter/deleter has the getter's name
+                    if isinstance(d, ast.Attribute) and d.attr in ('setter', 'deleter'):
+                        kind = '.' + d.attr
+                yield f'{m.name}:{prefix}{n.name}{kind}', n
             elif isinstance(n, ast.ClassDef):
                 yield from rec(n.body, f'{prefix}{n.name}.', inside)
             elif isinstance(n, (ast.If, ast.Try, ast.With)):
@@ -775,6 +779,9 @@ def inline_new_temps(fn, pinned):
                         b[i + 1] = _Sub().visit(nxt)
                     del b[i]
                     done = True
+                    for par in ast.walk(fn):          # the moved expression has a new parent
+                        for child in ast.iter_child_nodes(par):
+                            child._parent = par
                     break
                 if done:
                     break
@@ -793,10 +800,13 @@ def canonicalise_locals(m):
         want = pinned.get(fq)
         if want is None:
             continue
-        inline_new_temps(fn, set(want))
+        cur = ordered_locals(fn)
+        if all(w in cur for w in want) and len(cur) > len(want):
+            # every reference local is still there: the extra names are additions, not renames
+            inline_new_temps(fn, set(want))
+            continue
         if not want:
             continue
-        cur = ordered_locals(fn)
         if cur == want or len(cur) != len(want):
             continue
         # only names that disappeared are mapped onto names that appeared (in order of first binding); names that still
